@@ -188,9 +188,7 @@ Proof.
       * eapply triple_of_pcu; [apply pcu_finish | exact N0 | ds].
     + destruct (closed s); inversion H; subst; (eapply triple_trans; [exact T0|]).
       * eapply triple_of_pcu; [apply pcu_finish | exact N0 | ds].
-      * eapply triple_of_pcu; [ | exact N0 | ds].
-        apply quiet_pcu with (s1 := set_table s0 (next_sid s + 1)%N (table s ++ [(next_sid s, t)])); [|apply pcu_set_task].
-        unfold quiet. split; [reflexivity | split; [reflexivity | intros ?; reflexivity]].
+      * eapply triple_of_pcu; [apply pcu_set_task | exact N0 | ds].
     + destruct (t_sid (with_prog (tasks s t) rest)); [destruct (t_verdict (with_prog (tasks s t) rest))|];
         inversion H; subst; (eapply triple_trans; [exact T0|]);
         (eapply triple_of_pcu; [apply pcu_finish | exact N0 | ds]).
@@ -306,6 +304,11 @@ Proof.
         -- apply (wr_of_pcu _ _ _ _ (pcu_finish_close (set_shut s) t a k)).
         -- eapply hk_of_pcu; [apply pcu_finish_close | exact N].
   - discriminate.
+  - (* PO0 *)
+    assert (neutral (pcof s t) = true) as N by (unfold pcof; rewrite Epc; reflexivity).
+    inversion H; subst. apply class_of_triple. eapply triple_of_pcu; [ | exact N | ds].
+    apply quiet_pcu with (s1 := set_table s (next_sid s + 1)%N (table s ++ [(next_sid s, t)])); [|apply pcu_set_task].
+    unfold quiet. split; [reflexivity | split; [reflexivity | intros ?; reflexivity]].
   - (* PO1 *)
     assert (neutral (pcof s t) = true) as N by (unfold pcof; rewrite Epc; reflexivity).
     inversion H; subst. apply class_of_triple. eapply triple_of_pcu; [apply pcu_set_task | exact N | ds].
@@ -365,6 +368,7 @@ Proof.
   - destruct (wr s); inversion H; subst; [apply mono_same; reflexivity|].
     eapply mono_trans; [|apply mono_finish_close]. split; [intros A; exact A | intros _; reflexivity].
   - discriminate.
+  - inversion H; subst. apply mono_same; reflexivity.
   - inversion H; subst. apply mono_same; reflexivity.
 Qed.
 
